@@ -37,7 +37,8 @@ class IO(Plugin):
                 ops.append(f"W{o[1][0]}")
             else:
                 ops.append("V" + "+".join(str(n) for n in o[1]))
-        return f"{c['ad']} {hx(c['prefix'] or [])} {hx(c['stream'])} {rs} {ws} {','.join(ops) or '-'}"
+        ad = c["ad"] if "cap" not in c else f"{c['ad']}:{c['cap']}"
+        return f"{ad} {hx(c['prefix'] or [])} {hx(c['stream'])} {rs} {ws} {','.join(ops) or '-'}"
 
     def parse_obs(self, c, line):
         res, written, sn = line.split(";")
@@ -92,7 +93,7 @@ class IO(Plugin):
         inner = f"(mkInner {nl(c['stream'])} {rs} {ws} [])"
         sniff = "true" if c["ad"] == "sn" else "false"
         prefix = f"(Some {nl(c['prefix'])})" if c["prefix"] is not None else "None"
-        fwd = "false" if c["ad"] in ("braidN", "braidT", "cs", "ss") else "true"
+        fwd = "false" if c["ad"] in ("braidN", "braidT", "cs", "ss", "dx", "dxt", "dxc", "dxs") else "true"
         case = f"mkCase {sniff} {fwd} {prefix} {inner} {self.coq_ops(c, o)}"
         items = []
         for r in o["res"]:
@@ -135,6 +136,13 @@ class IO(Plugin):
         return k
 
     def shrinks(self, c):
+        if "cap" in c:
+            # the accept script is derived from the ops: only drop trailing ops (with their script entries)
+            nw = len(c["ops"]) - 1
+            if len(c["ops"]) > 1:
+                d = dict(c); d["ops"] = c["ops"][:-1]; d["ws"] = c["ws"][:nw]
+                yield d
+            return
         for key in ("ops", "rs", "ws"):
             for i in range(len(c[key])):
                 d = dict(c)
@@ -213,7 +221,7 @@ class C18(IO):
         "NOT expressible: absence of undefined behaviour in the two unsafe blocks (R1); only the arithmetic they rely on is proved",
     ]
     assumptions = ["scripted inner stream obeys the AsyncRead/Read contract (never delivers more than the room offered)",
-                   "real TCP/Unix/duplex sockets under Braid are exercised by C01's end-to-end run, not here"]
+                   "real TCP/Unix sockets under Braid are exercised by C01's end-to-end run, not here; the duplex pipe is only written to (nobody reads while the writes are going on)"]
 
     ADAPTERS = ["th", "ht", "thht", "hth", "rw", "rwt", "braidN", "braidT", "cs", "ss"]
 
@@ -240,7 +248,38 @@ class C18(IO):
                     for first in ("P", "E", ["D", 1]):
                         cases.append({"ad": ad, "prefix": [255 - j for j in range(plen)], "stream": [1, 2, 3, 4, 5],
                                       "rs": [first], "ws": [], "ops": [["R", cap, 0], ["R", 8, 0], ["R", 8, 0], ["R", 8, 0]]})
-        return cases, {"rule": f"{n} random (seeded) op sequences over {len(self.ADAPTERS)} adapter stacks + 54 targeted rewind cases",
+        # the real in-process duplex pipe (bare and under the dispatch wrappers): writes and vectored writes against
+        # back-pressure; the model is the same adapter model over an inner stream whose accept script is the
+        # capacity arithmetic of a pipe nobody reads from (accept min(n, free), Pending when full)
+        nd = 250 if tier == "quick" else 6000
+        for _ in range(nd):
+            ad = rng.choice(["dx", "dxt", "dxc", "dxs"])
+            cap = rng.choice([1, 2, 3, 5, 8, 13])
+            ops, ws, free = [], [], cap
+            for _ in range(rng.randint(2, 8)):
+                x = rng.random()
+                if x < 0.1:
+                    ops.append("F")
+                    ws.append(["A", 0])                     # a flush consumes one script entry in the model: Ok
+                    continue
+                if x < 0.55:
+                    sizes = [rng.choice([1, 2, 3, cap, cap + 1, max(1, free), max(1, free - 1)])]
+                else:
+                    sizes = [rng.choice([0, 1, 2, 3, max(1, free), cap]) for _ in range(rng.randint(2, 3))]
+                    if not any(sizes):
+                        sizes[0] = 1
+                n = next(z for z in sizes if z)            # tokio's default vectored write: the first non-empty slice
+                if free == 0:
+                    ws.append("P")
+                else:
+                    k = min(n, free)
+                    ws.append(["A", k])
+                    free -= k
+                ops.append(["W", sizes])
+            cases.append({"ad": ad, "cap": cap, "prefix": None, "stream": [], "rs": [], "ws": ws, "ops": ops})
+        return cases, {"rule": f"{n} random (seeded) op sequences over {len(self.ADAPTERS)} adapter stacks + 54 targeted rewind cases + "
+                               f"{nd} write / vectored-write sequences against back-pressure on the REAL duplex pipe (capacity 1..13), bare and "
+                               "under TlsBraid / client Stream / server Stream, far end drained and compared",
                        "exhaustive": False}
 
     def histogram(self, cases, obss):
